@@ -42,7 +42,8 @@ _constructor.__name__ = "constructor_block"
 
 def build(tier, seed):
     set_tier(tier)
-    tasks = [a_task(PROP, access.is_interface_procedure), a_task(PROP, access.permission_getter), a_task(PROP, access.access_tracking),
+    tasks = [Task(f"{PROP}.S.filter_public", PROP, "FortranCodeUnit.correlate", lambda: __import__("contracts.useassoc", fromlist=["x"]).filter_public_obligation(PROP, lambda: __import__("bounded.c06", fromlist=["x"]).search())),
+             a_task(PROP, access.is_interface_procedure), a_task(PROP, access.permission_getter), a_task(PROP, access.access_tracking),
              a_task(PROP, access.process_attribs_item), a_task(PROP, _constructor),
              Task(f"{PROP}.S.constructors", PROP, "FortranContainer.__init__", lambda: access.constructor_call_sites(PROP) + access.initial_default(PROP)),
              Task(f"{PROP}.S.elementwise", PROP, "attribute loops", lambda: __import__("contracts.elementwise", fromlist=["x"]).obligations(PROP, replay=lambda: __import__("bounded.c04", fromlist=["x"]).search())),
